@@ -61,10 +61,11 @@ class NoteContainer(object):
             elif len(self.notes) == 0:
                 note = Note(note, 4, dynamics)
             else:
-                if Note(note, self.notes[-1].octave) < self.notes[-1]:
-                    note = Note(note, self.notes[-1].octave + 1, dynamics)
-                else:
-                    note = Note(note, self.notes[-1].octave, dynamics)
+                # voice the name at or above the top note and less than an
+                # octave above it (B# and Cb cross the octave line)
+                top = self.notes[-1]
+                octaves_off = (int(Note(note, top.octave)) - int(top)) // 12
+                note = Note(note, top.octave - octaves_off, dynamics)
         if not hasattr(note, "name"):
             raise UnexpectedObjectError(
                 "Object '%s' was not expected. " "Expecting a mingus.containers.Note object." % note
